@@ -306,7 +306,7 @@ theorem opStep_src {c : Cfg} {ops : List Op} {σ : RunSt} {f : Nat → Nat} (hg 
           obtain ⟨b, hb, _⟩ := hi.chain h (by omega) (by omega)
           exact (hn h b h1 hb).lt
   | crash k =>
-    obtain ⟨n, ws, hst, hl, hsy, hwm, hstore, hcuts, hadv, _, hblk⟩ := start_of_dinv' (hg.cuts k)
+    obtain ⟨n, ws, hst, hl, hsy, hwm, hstore, hcuts, hadv, _, hblk, _⟩ := start_of_dinv' (hg.cuts k)
     refine ⟨{ base := σ.base.applyPrefix k σ.ws, ws := ws, node := n }, f, by simp only [opStep, hst],
       ⟨hl, hsy, hwm, hstore, hcuts, hadv⟩, ?_⟩
     obtain ⟨im, im0⟩ := hs.image k
